@@ -54,8 +54,7 @@ func (c *vConn) Read(b []byte) (int, error) {
 	if c.failReads {
 		return 0, vConnErr{}
 	}
-	vblocked()
-	return 0, nil
+	select {} // a healthy idle transport: Read blocks
 }
 
 func (c *vConn) Write(b []byte) (int, error) {
@@ -153,8 +152,18 @@ func vPair(o vAssocOpts) (*Association, *Association) {
 
 // vWriterPass is one iteration of writeLoop without the transport: gather, and close
 // the association when the gathered packets were terminal.
+// vIsShut reports whether close() ran (state CLOSED alone also describes a listening server).
+func vIsShut(a *Association) bool {
+	select {
+	case <-a.closeWriteLoopCh:
+		return true
+	default:
+		return false
+	}
+}
+
 func vWriterPass(a *Association) [][]byte {
-	if a.getState() == closed {
+	if vIsShut(a) {
 		return nil
 	}
 	pkts, ok := a.gatherOutbound()
@@ -175,14 +184,14 @@ func vDecode(raw []byte) *packet {
 
 // vFireAck lets a pending delayed-ack timer expire.
 func vFireAck(a *Association) {
-	if a.getState() != closed && a.ackTimer.timer.Stop() {
+	if !vIsShut(a) && a.ackTimer.timer.Stop() {
 		a.ackTimer.timeout()
 	}
 }
 
 // vInbound is one iteration of readLoop for one packet; a fatal error closes like readLoop does.
 func vInbound(a *Association, raw []byte) {
-	if a.getState() == closed {
+	if vIsShut(a) {
 		return
 	}
 	if err := a.handleInbound(raw); err != nil {
@@ -192,7 +201,7 @@ func vInbound(a *Association, raw []byte) {
 
 // vFireRtx lets an armed retransmission timer expire (runtime timer fires, callback runs).
 func vFireRtx(a *Association, t *rtxTimer) bool {
-	if a.getState() != closed && t.timer.Stop() {
+	if !vIsShut(a) && t.timer.Stop() {
 		t.timeout()
 		return true
 	}
